@@ -196,7 +196,18 @@ def m_try_from(ctx, args):
             return ok(x)
         return ("ite", eng.bdd.var(("len_is", x, n)), ok(("as_array", x, n)), err(("try_from_err", x)))
     if s in ("u64", "i64", "u32", "usize", "i128", "u128") and d in ("i64", "u64", "u32", "usize", "u8", "i32"):
-        c = eng.bdd.var(("fits", x, s, d))
+        from .sym import INT_RANGES
+        (slo, shi), (dlo, dhi) = INT_RANGES[s], INT_RANGES[d]
+        if slo >= dlo and shi <= dhi:
+            return ok(("icast", x, s, d))
+        if slo < dlo and shi <= dhi:
+            # only the lower bound can fail: fits <=> !(x < dlo)   (same order atom as an explicit `x < 0` test)
+            c = eng.bdd.NOT(eng.bdd.var(("icmp", "Lt", x, ("int", dlo), s)))
+        elif slo >= dlo and shi > dhi:
+            # only the upper bound can fail: fits <=> !(dhi < x)
+            c = eng.bdd.NOT(eng.bdd.var(("icmp", "Lt", ("int", dhi), x, s)))
+        else:
+            c = eng.bdd.var(("fits", x, s, d))
         return ("ite", c, ok(("icast", x, s, d)), err(("try_from_int_err",)))
     return ("call", ctx.oq, (x,))
 
@@ -1058,22 +1069,16 @@ def m_take(ctx, args):
     return ("iter", ("take", a[1], nn)) if a[0] == "iter" else ("call", ctx.oq, (a, n))
 
 
-@model("std::iter::Iterator::for_each")
-def m_for_each(ctx, args):
-    """`it.for_each(f)` == `for e in it { f(e) }`: summarised exactly like an iterator-driven `for` loop whose body is
-    the closure (loop-carried cells = whatever the closure writes through its captures)."""
+def closure_loop(ctx, shape, body_fn, early_fn=None):
+    """Summarise `for e in <shape> { body_fn(e) }` where the body is Python-driven (a closure call): same record as an
+    iterator-driven MIR loop (LoopInfo with init / step of every cell the body writes).  Literal collections are
+    executed iteration by iteration.  `early_fn(result)` (optional) gives the BDD condition under which the iteration
+    stops early; returns (uid or None, last body result)."""
     eng, st = ctx.eng, ctx.st
-    a = args[0]
-    if is_ref(a):
-        d = eng.deref_value(st, a)
-        a = d if d is not None else a
-    a = as_iter(ctx, a, 0)
-    if a[0] != "iter" or is_stream(a[1]):
-        return ("call", ctx.oq, tuple(args))
-    shape = a[1]
     n = shape_len(eng, shape)
-    if isinstance(n, int) and n <= 8 and unrollable(shape):
+    if isinstance(n, int) and n <= 8 and unrollable(shape) and early_fn is None:
         puid = next(eng.nuid)
+        r = None
         for kk in range(n):
             e, _ = elem_of(shape, 0)
             sub = {("idx", 0): ("int", kk)}
@@ -1082,11 +1087,11 @@ def m_for_each(ctx, args):
             eng.binders.append(puid)
             eng.unroll[puid] = (kk, n, shape)
             try:
-                call_closure(ctx, args[1], [instantiate_elem(eng, ctx, eng.subst(e, sub))])
+                r = body_fn(instantiate_elem(eng, ctx, eng.subst(e, sub)))
             finally:
                 eng.binders.pop()
                 eng.unroll.pop(puid, None)
-        return UNIT
+        return None, r
     from .sym import LoopInfo, UNDEF
     uid = next(eng.nuid)
     info = LoopInfo()
@@ -1098,6 +1103,7 @@ def m_for_each(ctx, args):
     info.init_store = pre
     nob, npan = len(eng.obligations), len(eng.panics)
     M = set()
+    r = None
     for _round in range(6):
         st.store = dict(pre)
         for c in M:
@@ -1108,7 +1114,7 @@ def m_for_each(ctx, args):
         eng.binders.append(uid)
         try:
             e, _ = elem_of(shape, uid)
-            call_closure(ctx, args[1], [instantiate_elem(eng, ctx, e)])
+            r = body_fn(instantiate_elem(eng, ctx, e))
         finally:
             eng.binders.pop()
         newM = {c for c in pre if st.store.get(c, UNDEF) != entry.get(c, UNDEF)}
@@ -1119,13 +1125,91 @@ def m_for_each(ctx, args):
     info.init = {c: pre.get(c, UNDEF) for c in M}
     info.step = {c: st.store.get(c, UNDEF) for c in M}
     info.back_pc = 1
+    if early_fn is not None:
+        info.early = [(early_fn(r), "early")]
     out = dict(pre)
     leaves = tuple(leaves_of(shape))
     for c in M:
-        closed = eng.closed_push_loop(uid, c, info, M, n, leaves)
+        closed = None
+        if early_fn is None:
+            closed = eng.closed_push_loop(uid, c, info, M, n, leaves) or eng.closed_sum_loop(uid, c, info, M, n, leaves)
         out[c] = closed if closed is not None else ("loopout", uid, c)
     st.store = out
+    return uid, r
+
+
+def _iter_arg(ctx, a):
+    eng = ctx.eng
+    if is_ref(a):
+        d = eng.deref_value(ctx.st, a)
+        a = d if d is not None else a
+    return as_iter(ctx, a, 0)
+
+
+@model("std::iter::Iterator::for_each")
+def m_for_each(ctx, args):
+    """`it.for_each(f)` == `for e in it { f(e) }`."""
+    a = _iter_arg(ctx, args[0])
+    if a[0] != "iter" or is_stream(a[1]):
+        return ("call", ctx.oq, tuple(args))
+    closure_loop(ctx, a[1], lambda e: call_closure(ctx, args[1], [e]))
     return UNIT
+
+
+@model("std::iter::Iterator::fold")
+def m_fold(ctx, args):
+    """`it.fold(init, f)` == `let mut acc = init; for e in it { acc = f(acc, e) }; acc`.  A tuple accumulator is kept as
+    one loop-carried cell per component so that the recurrences (sum / weighted sum) are recognised component-wise."""
+    eng, st = ctx.eng, ctx.st
+    a = _iter_arg(ctx, args[0])
+    if a[0] != "iter" or is_stream(a[1]):
+        return ("call", ctx.oq, tuple(args))
+    init = args[1]
+    if init[0] == "tuple":
+        cells = [next(eng.ncell) for _ in init[1]]
+        for c, v in zip(cells, init[1]):
+            st.store[c] = v
+
+        def body(e):
+            acc = ("tuple", tuple(st.store[c] for c in cells))
+            r = call_closure(ctx, args[2], [acc, e])
+            for i, c in enumerate(cells):
+                st.store[c] = eng.proj_field(r, i)
+            return r
+        closure_loop(ctx, a[1], body)
+        return ("tuple", tuple(st.store[c] for c in cells))
+    cell = next(eng.ncell)
+    st.store[cell] = init
+
+    def body1(e):
+        r = call_closure(ctx, args[2], [st.store[cell], e])
+        st.store[cell] = r
+        return r
+    closure_loop(ctx, a[1], body1)
+    return st.store[cell]
+
+
+@model("std::iter::Iterator::try_for_each")
+def m_try_for_each(ctx, args):
+    """`it.try_for_each(f)`: stops at the first Err / None; Ok(()) after a full pass."""
+    eng, st = ctx.eng, ctx.st
+    a = _iter_arg(ctx, args[0])
+    if a[0] != "iter" or is_stream(a[1]):
+        return ("call", ctx.oq, tuple(args))
+    dst = ctx.dest_ty()
+    is_opt = dst is not None and dst[0] == "adt" and dst[1].endswith("Option")
+    fail_variant = 0 if is_opt else 1
+    uid, r = closure_loop(ctx, a[1], lambda e: call_closure(ctx, args[1], [e]),
+                          early_fn=lambda res: variant_cond(eng, res, fail_variant))
+    if uid is None or r is None:
+        return ("call", ctx.oq, tuple(args))
+    cond = eng.loops[uid].early[0][0]
+    atom = eng.bdd.var(("anyiter", uid, ("b", cond)))
+    info = eng.loops[uid]
+    sub_some = {("lv", uid, c): ("some_iter", uid, c) for c in info.cells}
+    if is_opt:
+        return eng.mk_ite(atom, NONE, some(UNIT))
+    return eng.mk_ite(atom, err(eng.subst(payload(eng, r, 1), sub_some)), ok(UNIT))
 
 
 @model("std::iter::Iterator::any", "std::iter::Iterator::all")
